@@ -13,7 +13,7 @@ type world struct{}
 
 func (world) Name() string          { return "conc" }
 func (world) Props() []string       { return []string{"C34", "C35"} }
-func (world) Bubble(p string) bool  { return false } // no timers: PopWithTimer is not modelled
+func (world) Bubble(p string) bool  { return false } // the PopWithTimer runs open a bubble of their own (kernel.K.InBubble)
 func (world) Level(p string) string { return "exploration" }
 func (world) Run(k *kernel.K) {
 	switch k.Prop {
@@ -29,7 +29,7 @@ const commonRule = " The code under test is the CURRENT /repo file, rewritten at
 func (world) Rule(p string) string {
 	switch p {
 	case "C34":
-		return "transaction.PriorityQueue: operations Push (4 extrinsics as keys, 3 priorities, every pushed *ValidTransaction distinct), Pop, Peek, RemoveExtrinsic, Exists, Pending, Len. Model: highest priority first, earliest accepted push among equals, a push of an extrinsic that is in the queue is refused with an error, every accepted push is yielded by Pop / removed at most once, Peek does not remove, Exists/Len/Pending (as a set) reflect the content. One run in five is a sequential history on the node's transaction state instead (dot/state.TransactionState over the real lib/transaction queue and pool: Push, AddToPool, Pop, Peek, RemoveExtrinsic, RemoveExtrinsicFromPool, Exists, Pending, PendingInPool; model: the queue model plus a map for the pool, membership = in the queue or in the pool)." + commonRule
+		return "transaction.PriorityQueue: operations Push (4 extrinsics as keys, 3 priorities, every pushed *ValidTransaction distinct), Pop, Peek, RemoveExtrinsic, Exists, Pending, Len. Model: highest priority first, earliest accepted push among equals, a push of an extrinsic that is in the queue is refused with an error, every accepted push is yielded by Pop / removed at most once, Peek does not remove, Exists/Len/Pending (as a set) reflect the content. One run in six is a sequential history on the node's transaction state instead (dot/state.TransactionState over the real lib/transaction queue and pool: Push, AddToPool, Pop, Peek, RemoveExtrinsic, RemoveExtrinsicFromPool, Exists, Pending, PendingInPool; model: the queue model plus a map for the pool, membership = in the queue or in the pool). One run in six exercises PopWithTimer, the pop of the block producer, on the REAL lib/transaction package inside a synctest bubble (its poller goroutine, 10 ms ticker and channels are not modelled by the cooperative scheduler): a producer blocked in PopWithTimer, 1-2 pushers just before / just after / between polls, a slot timer that ends just before / just after / between polls, and in half of these runs a holder of the queue's own lock across a poll who may end the slot while the poller is parked between its wake-up and its Pop; no two wake-ups share a virtual instant (one thread, GC off), so the schedule is a function of the tape. The recorded history (PopWithTimer as a pop over its whole interval, then draining pops and membership queries) goes to the same linearizability check." + commonRule
 	case "C35":
 		return "lrucache.LRUCache[int,int]: operations Get and Put (the only methods), capacity 1..8. Model: map bounded by capacity; Get of a present key returns the last value put and makes the key most recently used, Get of an absent key returns the zero value; Put of a present key replaces the value and makes it most recently used; Put of an absent key into a full cache evicts exactly the least recently used key." + commonRule
 	}
@@ -42,7 +42,7 @@ func (world) Components(p string) ([]string, []string) {
 		"clients (tape-chosen operations)"}
 	switch p {
 	case "C34":
-		return []string{"lib/transaction/priority_queue.go (PriorityQueue Push/Pop/Peek/RemoveExtrinsic/Exists/Pending/Len and the heap below it; instrumented at check time from the working tree; PopWithTimer copied but NOT exercised)",
+		return []string{"lib/transaction/priority_queue.go (PriorityQueue Push/Pop/Peek/RemoveExtrinsic/Exists/Pending/Len and the heap below it; instrumented at check time from the working tree; PopWithTimer copied but not exercised there)", "lib/transaction PopWithTimer (real package, 1 run in 6, inside a synctest bubble: poller goroutine, ticker, hand-over channel, slot timer",
 			"lib/transaction/types.go (copied)", "container/heap", "dot/types.Extrinsic.Hash", "dot/state/transaction.go TransactionState + lib/transaction/pool.go (real packages, sequential histories only)"}, stub
 	case "C35":
 		return []string{"lib/utils/lru-cache/lru_cache.go (LRUCache Get/Put/NewLRUCache; instrumented at check time from the working tree)", "container/list"}, stub
